@@ -32,6 +32,8 @@ def units(tier, seed, only=None):
                   loops=[{'function': 'orc_opcode_register_static', 'file': 'orc/orcopcode.c', 'anchor': 'while (sopcode[n].name[0]) {',
                           'invariants': '0 <= n && n <= g_tablen', 'assigns': 'n', 'decreases': 'g_tablen - n'}]),
         core.Unit('orc_rule_set_new', SRC, 'h_rule_set_new', enforce='orc_rule_set_new', defines=D, unwind=18, timeout=300),
+        core.Unit('orc_target_get_rule', SRC, 'h_target_get_rule', enforce='orc_target_get_rule', defines=D, unwind=18, timeout=600, object_bits=10,
+                  replace=['orc_opcode_set_find_by_opcode', 'orc_opcode_set_find_by_name'], bounded=B + '; at most 3 rule sets per target'),
     ]
     if only:
         us = [u for u in us if re.search(only, u.name)]
